@@ -1,4 +1,5 @@
 import RtenVerif.Model.Contours
+import RtenVerif.Lemmas.Contours
 
 /-!
 # C36 — Contour tracing and drawing stay on the image
@@ -11,6 +12,10 @@ shape's bounds, for any shape coordinates, including ones outside the image.*
 Model: `RtenVerif.Model.Contours`.
 
 Proved for all inputs (unbounded image sizes and coordinates):
+* **T1** every point of every contour `find_contours` returns is a foreground pixel of the input
+  inside the image — for every mask size, mask and retrieval mode
+  (`c36_contour_points_foreground`; invariant: non-zero entries of the working mask are non-zero
+  in the padded input, and border following only ever stands on non-zero entries).
 * **T4** checked writes: whatever pixel list a primitive produces, only in-image pixels are
   written and a pixel outside the image turns into a panic (`writeAll_spec`); `fill_rect`
   writes only pixels of the rect (`c36_fillRect_spec`); `stroke_rect` (with the width clamp of
@@ -25,8 +30,9 @@ Bounded (kernel evaluation of a complete finite scope, labelled as such):
   all masks with `rows, cols ≤ 3`, `rows·cols ≤ 6` in both modes
   (`c36_contours_bounded_small`, in `Props/C36Bounded`; all 3×3 masks were also checked this
   way once but take > 5 min of kernel time and are left to the exhaustive correspondence run).
-Not proved in general: T1 for arbitrary masks, the minor-axis bound of Bresenham, `FillIter`
-(T3) — these are covered by the correspondence/oracle runs only.
+Not proved in general: termination of border following and adjacency to the background for
+arbitrary masks (bounded only), "every component has an outer contour", the minor-axis bound of
+Bresenham, `FillIter` (T3) — these are covered by the correspondence/oracle runs only.
 -/
 namespace RtenVerif.Contours
 
@@ -133,5 +139,30 @@ theorem c36_clamp_in_image (h w : Int) (p : Pt) (hh : 0 < h) (hw : 0 < w) :
   apply decide_eq_true
   simp only [clampToBounds, clampI]
   refine ⟨?_, ?_, ?_, ?_⟩ <;> (repeat' split) <;> omega
+
+/-! ## T1 contour points are foreground pixels -/
+
+/-- **C36.T1** For every mask of every size and both retrieval modes: if `find_contours`
+returns, every point of every contour is a foreground pixel of the input inside the image. -/
+theorem c36_contour_points_foreground (rows cols : Nat) (mask : List Bool) (outerOnly : Bool)
+    (cs : List (List Pt)) (h : findContours rows cols mask outerOnly = .ok cs) :
+    ∀ c ∈ cs, ∀ p ∈ c, maskAt rows cols mask p = true := by
+  unfold findContours at h
+  simp only at h
+  split at h
+  · rename_i s hs
+    cases h
+    have := scanAll_good (padMask rows cols mask) (cols + 2) _ outerOnly _ _ s
+      (fun i hi => hi) (by intro c hc; cases hc) hs
+    intro c hc p hp
+    exact good_padMask rows cols mask p (this.2 c (List.mem_reverse.mp hc) p hp)
+  · cases h
+  · cases h
+
+
+/-- Non-vacuity: the hypothesis is met by a mask with two components (and the conclusion is
+not trivial: the mask has background pixels). -/
+example : findContours 1 4 [true, false, true, true] false = .ok [[(0, 0)], [(0, 2), (0, 3)]] := by
+  decide +kernel
 
 end RtenVerif.Contours
